@@ -59,6 +59,10 @@ func init() {
 		if err != nil {
 			return "", err
 		}
+		_, tsds, err := ParseFile(repo, "pkg/encoding/tsd_stream.go")
+		if err != nil {
+			return "", err
+		}
 		_, snp, err := ParseFile(repo, "pkg/compress/snappy.go")
 		if err != nil {
 			return "", err
@@ -69,6 +73,11 @@ func init() {
 			recv, name string
 			lean       string
 		}{
+			{tsds, "", "NewTSDStreamReader", "newTSDStreamReaderCalls"},
+			{tsds, "tsdStreamReader", "HasNext", "tsdStreamReaderHasNextCalls"},
+			{tsds, "tsdStreamReader", "Next", "tsdStreamReaderNextCalls"},
+			{tsds, "tsdStreamReader", "Close", "tsdStreamReaderCloseCalls"},
+			{tsds, "tsdStreamReader", "TimeRange", "tsdStreamReaderTimeRangeCalls"},
 			{tsd, "", "GetTSDEncoder", "getTSDEncoderCalls"},
 			{tsd, "", "ReleaseTSDEncoder", "releaseTSDEncoderCalls"},
 			{tsd, "", "GetTSDDecoder", "getTSDDecoderCalls"},
